@@ -23,18 +23,18 @@ Definition minify_body : list pstmt := [
   PStage GTrue "resolve_names" []   (* line 163 *);
   PStage (GAnd (GOpt "remove_builtin_exception_brackets") (GNot GTainted)) "remove_no_arg_exception_call" []   (* line 165 *);
   PForceFalse GTainted ["rename_globals"; "rename_locals"]   (* line 168 *);
-  PNormalise "preserve_locals" false   (* line 172 *);
-  PNormalise "preserve_globals" false   (* line 176 *);
-  PExtendArg "preserve_locals" "module.preserved"   (* line 181 *);
-  PExtendArg "preserve_globals" "module.preserved"   (* line 182 *);
-  PStage GTrue "allow_rename_locals" ["rename_locals"; "preserve_locals"]   (* line 184 *);
-  PStage GTrue "allow_rename_globals" ["rename_globals"; "preserve_globals"]   (* line 185 *);
-  PStage (GOpt "hoist_literals") "rename_literals" []   (* line 187 *);
-  PStage GTrue "rename" ["prefix_globals=not rename_globals"; "preserved_globals=preserve_globals"]   (* line 190 *);
-  PStage (GOpt "convert_posargs_to_args") "remove_posargs" []   (* line 192 *);
-  PUnparse   (* line 195 *);
-  PShebang (GIsTrue "preserve_shebang")   (* line 197 *);
-  PReturn   (* line 202 *)
+  PNormalise "preserve_locals" true   (* line 172 *);
+  PNormalise "preserve_globals" true   (* line 178 *);
+  PExtendArg "preserve_locals" "module.preserved"   (* line 185 *);
+  PExtendArg "preserve_globals" "module.preserved"   (* line 186 *);
+  PStage GTrue "allow_rename_locals" ["rename_locals"; "preserve_locals"]   (* line 188 *);
+  PStage GTrue "allow_rename_globals" ["rename_globals"; "preserve_globals"]   (* line 189 *);
+  PStage (GAnd (GOpt "hoist_literals") (GNot GTainted)) "rename_literals" []   (* line 191 *);
+  PStage GTrue "rename" ["prefix_globals=not rename_globals"; "preserved_globals=preserve_globals"]   (* line 194 *);
+  PStage (GOpt "convert_posargs_to_args") "remove_posargs" []   (* line 196 *);
+  PUnparse   (* line 199 *);
+  PShebang (GIsTrue "preserve_shebang")   (* line 201 *);
+  PReturn   (* line 206 *)
 ].
 Definition shebang_regex_text : regex := [((RLit 35%N), false); ((RLit 33%N), false); ((RNotIn [13%N; 10%N]), true)].
 Definition shebang_regex_bytes : regex := [((RLit 35%N), false); ((RLit 33%N), false); ((RNotIn [13%N; 10%N]), true)].
